@@ -1749,6 +1749,13 @@ int sm2_z256_point_equ(const SM2_Z256_POINT *P, const SM2_Z256_POINT *Q)
 	sm2_z256_t V1;
 	sm2_z256_t V2;
 
+	// the point at infinity (Z == 0, also in the form (0:0:0) that point_add
+	// returns for P + (-P)) equals only itself: the cross-multiplication
+	// below would make (0:0:0) equal to every point
+	if (sm2_z256_is_zero(P->Z) || sm2_z256_is_zero(Q->Z)) {
+		return sm2_z256_is_zero(P->Z) && sm2_z256_is_zero(Q->Z);
+	}
+
 	// X1 * Z2^2 == X2 * Z1^2
 	sm2_z256_modp_mont_sqr(Z1, P->Z);
 	sm2_z256_modp_mont_sqr(Z2, Q->Z);
